@@ -19,7 +19,7 @@ ASSUMPTIONS = ['tilt-free wavefronts only (tilt is C04)', 'all-zero masks are re
 PLAN = {'quick': {'gen': 8}, 'thorough': {'gen': 16, 'tests': 1, 'docs': 1}}
 REQUIRED_BUCKETS = ['in:ee', 'in:oo', 'in:eo', 'in:oe', 'out:even', 'out:odd', 'dx:iso', 'dx:aniso', 'du:iso', 'du:aniso',
                     'prop<shape', 'prop=shape', 'mask', 'nomask', 'dir:pupil->image', 'dir:image->pupil', 'chain:2',
-                    'mask+prop', 'repeated', 'segmented', 'broadband', 'fft:broadband-scratch', 'alpha:near-critical']
+                    'mask+prop', 'repeated', 'segmented', 'shape:small-int', 'scalars:float32', 'broadband', 'fft:broadband-scratch', 'alpha:near-critical']
 REQUIRED_ANCHORS = ['probe:propagate_dft', 'probe:propagate_fft', 'anchor:_dft_alpha', 'anchor:_mask_shift', 'anchor:dft2',
                     'anchor:intersection_shift']
 REQUIRED_ORACLES = ['dft=fraunhofer', 'dft=fraunhofer:meta', 'dft=fraunhofer:outside=0', 'fft=fraunhofer', 'fft=fraunhofer:meta']
@@ -147,6 +147,20 @@ def workload(ctx, lentil):
         oshape = gen.rshape(rng, 1, 14)
         if rng.random() < 0.15:
             oshape = None
+        small_int = None
+        if i % 7 == 3 and os_ >= 2:
+            # shapes handed over as small NumPy integers (e.g. read from a uint8 header): shape * oversample does not fit the
+            # type although the shape does
+            oshape = tuple(127 // os_ + int(rng.integers(1, 8)) for _ in range(2))
+            small_int = np.int8
+            ctx.bucket('shape:small-int')
+        narrow = None
+        if i % 7 == 5:
+            # the same optical system with its scalars held in single precision
+            narrow = np.float32
+            f32 = lambda v: tuple(float(np.float32(x)) for x in v) if isinstance(v, tuple) else float(np.float32(v))
+            wl, z, dx, du = f32(wl), f32(z), f32(dx), f32(du)
+            ctx.bucket('scalars:float32')
         full = shape if oshape is None else oshape
         r = rng.random()
         if r < 0.4:
@@ -178,6 +192,10 @@ def workload(ctx, lentil):
             segs, _ = gen.partition(rng, sup, int(rng.integers(2, 5)))
             segkw['mask'] = segs.astype(float)
             ctx.bucket('segmented')
+        du_arg = du
+        if narrow is not None:
+            nar = lambda v: np.array(v, dtype=narrow) if isinstance(v, tuple) else narrow(v)
+            wl, z, dx, du_arg = nar(wl), nar(z), nar(dx), nar(du)
         if direction == 'pupil->image':
             w = lentil.Wavefront(wl) * lentil.Pupil(amplitude=amp, opd=opd, pixelscale=dx, focal_length=z, **segkw)
             if chain2:
@@ -198,6 +216,11 @@ def workload(ctx, lentil):
             kw['prop_shape'] = pshape
         if mask is not None:
             kw['mask'] = mask
+        if small_int is not None:
+            kw['shape'] = np.array(oshape, dtype=small_int) if i % 2 else tuple(small_int(v) for v in oshape)
+            if pshape is not None:
+                kw['prop_shape'] = np.array(pshape, dtype=small_int)
+        du = du_arg
         try:
             lentil.propagate_dft(w, du, oversample=os_, **kw)     # probe decides
             if i % 3 == 0:
